@@ -720,6 +720,17 @@ func (c *SpecCtx) call(e *SExpr) Val {
 				panic(undecided{"dynptr: unknown struct type or non-interface argument"})
 			}
 			return boolVal(Eq(x.C[0], typeTag(types.NewPointer(nt))))
+		case "bimapvals": // bimapvals(x, T): the BiMap x returns values of dynamic type T from Get
+			x := c.eval(args[0])
+			DeclareFun("bimapValTag", []Sort{SInt}, SInt)
+			return boolVal(Eq(App("bimapValTag", SInt, x.C[0]), typeTag(c.resolveType(typeArg(args[1])))))
+		case "dynfield": // dynfield(x, T, f): field f of the *T held by interface value x
+			x := c.eval(args[0])
+			nt := c.ex.namedStruct(typeArg(args[1]))
+			if nt == nil || len(x.C) != 2 {
+				panic(undecided{"dynfield: unknown struct type or non-interface argument"})
+			}
+			return c.st.loadField(x.C[1], nt, args[2].Tok)
 		case "isnil":
 			x := c.eval(args[0])
 			return boolVal(Eq(x.C[0], IntLit(0)))
